@@ -40,7 +40,7 @@ def normalise(findings):
 
 
 def check(res, thorough):
-    ok_t, ok_b, ok_h = core.prepare(res, "AscaVerif.Props.C02", thorough=thorough, extra_props=["AscaVerif.Props.C02Word", "AscaVerif.Props.C02Lex", "AscaVerif.Props.C02Parse", "AscaVerif.Props.C02Numbers", "AscaVerif.Props.C02ALex", "AscaVerif.Props.C02AParse", "AscaVerif.Props.C02ATotal"])
+    ok_t, ok_b, ok_h = core.prepare(res, "AscaVerif.Props.C02", thorough=thorough, extra_props=["AscaVerif.Props.C02Word", "AscaVerif.Props.C02Lex", "AscaVerif.Props.C02Parse", "AscaVerif.Props.C02Numbers", "AscaVerif.Props.C02ALex", "AscaVerif.Props.C02AParse", "AscaVerif.Props.C02ATotal", "AscaVerif.Props.C02Terms"])
     tier = "thorough" if thorough else "quick"
     scratch = core.scratch_dir("c02")
     try:
